@@ -186,7 +186,52 @@ def coll_unit():
         Inst('FeatureCollection.__add__', 'fcAddTrack', [('self', 'GV.Coll'), ('other', 'TrackA')], 'Except GV.Coll'),
         Inst('Track.__add__', 'trackAddTrack', [('self', 'GV.Coll'), ('other', 'TrackA')], 'Except GV.Coll'),
         Inst('Track.__add__', 'trackAddFc', [('self', 'GV.Coll'), ('other', 'FCA')], 'Except GV.Coll'),
+        # the list protocol: every method hands the question to the list `self.geoshapes`
+        Inst(f'{C}.__contains__', 'contains', [('self', 'GV.Coll'), ('item', 'Item')], 'Bool'),
+        Inst(f'{C}.__iter__', 'iter', [('self', 'GV.Coll')], 'List GV.Coll.Shape'),
+        Inst(f'{C}.__len__', 'len', [('self', 'GV.Coll')], 'Nat'),
+        Inst('FeatureCollection.__iter__', 'fcIter', [('self', 'GV.Coll')], 'List GV.Coll.Shape'),
+        Inst('FeatureCollection.__len__', 'fcLen', [('self', 'GV.Coll')], 'Nat'),
+        Inst('FeatureCollection.__getitem__', 'fcGetIdx', [('self', 'GV.Coll'), ('item', 'Int')], 'Except GV.Coll.Shape'),
+        Inst('FeatureCollection.__getitem__', 'fcGetSlice', [('self', 'GV.Coll'), ('item', 'Slice3')],
+             'Except List GV.Coll.Shape'),
+        Inst('FeatureCollection.__eq__', 'fcEqFc', [('self', 'GV.Coll'), ('other', 'FCA')], 'Bool'),
+        Inst('FeatureCollection.__eq__', 'fcEqTrack', [('self', 'GV.Coll'), ('other', 'TrackA')], 'Bool'),
+        Inst('FeatureCollection.__eq__', 'fcEqOther', [('self', 'GV.Coll'), ('other', 'Query')], 'Bool'),
     ]
+    py2lean.LEAN_TYPE.setdefault('Item', 'GV.Coll.Shape')
+    py2lean.LEAN_TYPE.setdefault('Slice3', 'Option Int × Option Int × Option Int')
+
+    SH = 'List GV.Coll.Shape'
+
+    def list_method(tr, recv, attr, args):
+        # the dunder methods of the builtin `list` that the collection delegates to, read as the model's list functions
+        # (negative indices, slices with a step, IndexError: `getIdx` / `getSlice` on the bare list)
+        if recv.typ != SH:
+            return None
+        if attr == '__iter__' and not args:
+            return Val(recv.text, SH)
+        if attr == '__len__' and not args:
+            return Val(f'({recv.text}).length', 'Nat')
+        if attr == 'copy' and not args:
+            return Val(recv.text, SH)
+        if attr == '__getitem__' and len(args) == 1:
+            a = tr.expr(args[0])
+            if a.typ == 'Int':
+                v = Val(f'(GV.Coll.getIdx (GV.Coll.mkFC {recv.text}) {a.text})', 'GV.Coll.Shape')
+            elif a.typ == 'Slice3':
+                v = Val(f'(GV.Coll.getSlice (GV.Coll.mkFC {recv.text}) {a.text}.1 {a.text}.2.1 {a.text}.2.2)', SH)
+            else:
+                raise Unsupported(f'list.__getitem__ at {a.typ}')
+            v.raises = True
+            return v
+        return None
+
+    def list_eq(tr, a, b):
+        # `xs == ys` on lists of shapes: same length and pairwise `x is y or x == y`
+        if a.typ == b.typ == SH:
+            return Val(f'(GV.Coll.listEq {a.text} {b.text})', 'Bool')
+        return None
     py2lean.LEAN_TYPE.setdefault('Str', 'String')
     py2lean.LEAN_TYPE.setdefault('PVal', 'GV.Coll.PVal')
     py2lean.LEAN_TYPE.setdefault('Props', 'List (String × GV.Coll.PVal)')
@@ -225,6 +270,8 @@ def coll_unit():
         ('GV.Coll.Shape', 'intersects', ('Query',)): ('xi {0}', 'Bool'),
         ('GV.Coll.Shape', 'contains', ('Query',)): ('xc {0}', 'Bool'),
         ('Query', 'contains', ('GV.Coll.Shape',)): ('qc {1}', 'Bool'),
+        # `item in self.geoshapes`: the list's membership test is `x is item or x == item`
+        ('List GV.Coll.Shape', '__contains__', ('Item',)): ('({0}).any (GV.Coll.sameOrEq {1})', 'Bool'),
     }
     py2lean.LEAN_TYPE.setdefault('Query', 'Unit')
     return Unit('SrcColl', src, 'GV.Src.Coll', ['GeoVerif.Gen.SrcTime', 'GeoVerif.Model.Collection', 'GeoVerif.Model.PyPrelude'], insts,
@@ -238,6 +285,7 @@ def coll_unit():
                             ('GV.Coll.Shape', 'dt'): ('{}.dt', 'Opt TI'), ('Query', 'dt'): ('qdt', 'Opt TI')},
                 intrinsics={'default_to_zulu': zulu, 'FeatureCollection': fc_ctor, 'Track': track_ctor},
                 hooks={'isinstance': isinstance_hook, 'type_ctor': type_ctor, 'always_truthy': ('TI', 'Dt'),
+                       'method': list_method, 'eq': list_eq,
                        'local_type': lambda qual, name: {('CollectionBase.filter_by_property', 'filtered_shapes'):
                                                          'List GV.Coll.Shape'}.get((qual, name))},
                 ctx_params=[('qdt', 'Option GV.TI'), ('xi', 'GV.Coll.Shape → Bool'), ('xc', 'GV.Coll.Shape → Bool'),
@@ -651,6 +699,12 @@ def mut_unit():
         Inst(f'{B}.set_property', 'setPropertyDefault', [S, ('key', 'Str'), ('value', 'PArg')], U,
              doc='`inplace` left at its default'),
     ]
+    # an observation must be recomputed on every read (a memoised one goes stale under the updates: that is C16), an
+    # updating method must be the plain function
+    for i in insts:
+        want = ['property'] if i.value_type != 'Upd' else []
+        if src.decorators(i.qual) != want:
+            raise Unsupported(f'`{i.qual}` is decorated {src.decorators(i.qual)}, the unit reads it as {want or "a plain method"}')
     py2lean.LEAN_TYPE.setdefault('Str', 'String')
     py2lean.LEAN_TYPE.setdefault('N', 'α')
     py2lean.LEAN_TYPE.setdefault('ORef', 'Nat')
